@@ -1,7 +1,9 @@
 package harness
 
 import (
+	"errors"
 	"fmt"
+	"math"
 	"reflect"
 	"sort"
 	"strings"
@@ -21,6 +23,52 @@ import (
 type Call struct {
 	S *StructCase `json:"struct,omitempty"`
 	V *ScalarCase `json:"scalar,omitempty"`
+	H *HelperCall `json:"helper,omitempty"`
+}
+
+// HelperCall is a call of one of the exported helpers (they share the pooled
+// buffers with the validators): its "outcome" is the text it returns.
+type HelperCall struct {
+	Name string `json:"name"` // dump | dumpjson | dumpjson-bad | explain | genkv | split | timefmt | strescape
+	Arg  string `json:"arg,omitempty"`
+}
+
+type helperDumpT struct {
+	A string
+	N int
+	F float64
+	M map[string]int
+	C chan int
+	P *helperDumpT
+}
+
+func (h *HelperCall) run() string {
+	switch h.Name {
+	case "dump":
+		return valid.GetDumpStructStr(&helperDumpT{A: h.Arg, N: len(h.Arg), M: map[string]int{"k": 1}, P: &helperDumpT{A: "in"}})
+	case "dumpjson":
+		return valid.GetDumpStructStrForJson(&struct {
+			A string
+			N int
+		}{h.Arg, len(h.Arg)})
+	case "dumpjson-bad": // a value encoding/json cannot encode: the error path of the helper
+		return valid.GetDumpStructStrForJson(&struct {
+			A string
+			F float64
+			C chan int
+		}{h.Arg, math.NaN(), make(chan int)})
+	case "explain":
+		return valid.GetOnlyExplainErr(`"A" input "1", explain: ` + h.Arg + `; "B" input "", 说明: 必填` + h.Arg)
+	case "genkv":
+		return valid.GenValidKV("to", h.Arg, "msg "+h.Arg) + "|" + valid.GenValidKV("re", h.Arg) + "|" + valid.GenValidKV("in", h.Arg, "")
+	case "split":
+		return strings.Join(valid.ValidNamesSplit("required,re='"+h.Arg+",x',to=1~2|"+h.Arg), "\x00")
+	case "timefmt":
+		return valid.GetTimeFmt(int8(len(h.Arg)), strings.Split(h.Arg, ",")...)
+	case "strescape":
+		return valid.StrEscape(h.Arg + "'\"\n")
+	}
+	return ""
 }
 
 // outcome of one executed call.
@@ -64,6 +112,15 @@ func (p *prepared) run() outcome {
 // prepare builds the arguments.  Every call of prepare builds fresh values,
 // so two prepared calls never share input memory.
 func (c *Call) prepare() *prepared {
+	if c.H != nil {
+		h := *c.H
+		return &prepared{call: func() error {
+			if s := h.run(); s != "" {
+				return errors.New(s) // the helper's text travels as the "error" of the call
+			}
+			return nil
+		}}
+	}
 	if c.V != nil {
 		return &prepared{call: c.V.prepare()}
 	}
@@ -121,7 +178,7 @@ func copyMap(m map[string]string) map[string]string {
 // inputsUnchanged compares the arguments after the call with what they were
 // built from (C12: the call leaves its input value and rule map unmodified).
 func (p *prepared) inputsUnchanged(c *Call) string {
-	if c.S == nil {
+	if c.S == nil || c.H != nil {
 		return ""
 	}
 	for i, rm := range p.rms {
@@ -219,6 +276,9 @@ func (c *StructCase) callWith(src interface{}, unscoped valid.RM, perType map[st
 // calls) or the rule oracles (scalar calls).  It returns the expected result
 // and whether clause order may legitimately vary (Go map / several groups).
 func (c *Call) predict() (res *model.Result, unordered bool) {
+	if c.H != nil {
+		return &model.Result{Excluded: []string{"helper-call"}}, c.H.Name == "dump" // (Go-map order inside the dump)
+	}
 	if c.V != nil {
 		res = c.V.expect()
 		return res, c.V.Carrier == "mapiface" && len(c.V.Others) > 0
@@ -274,6 +334,9 @@ func (c *Call) key() string {
 }
 
 func (c *Call) typeKey() string {
+	if c.H != nil {
+		return "helper:" + c.H.Name
+	}
 	if c.S == nil {
 		return "scalar:" + c.V.Carrier + ":" + c.V.T.K
 	}
@@ -382,7 +445,7 @@ func genScalarCall(t *rapid.T, mg *msgGen) *ScalarCase {
 	}
 	// a function defined for this call only, named like a built-in, like a global function or freshly
 	if rapid.IntRange(0, 2).Draw(t, "sCallFn") == 0 {
-		name := rapid.SampledFrom([]string{"phone", "cfn1", "shadowed", "email", "int"}).Draw(t, "sFnName")
+		name := rapid.SampledFrom([]string{"phone", "cfn1", "shadowed", "email", "int", "required"}).Draw(t, "sFnName")
 		c.Rules = append(c.Rules, name)
 		c.CallFns = []string{name}
 	}
@@ -398,8 +461,8 @@ func genScalarCall(t *rapid.T, mg *msgGen) *ScalarCase {
 		}
 		c.Pos = rapid.IntRange(0, k).Draw(t, "pos")
 	}
-	if (c.Carrier == "map" || c.Carrier == "url") && rapid.IntRange(0, 5).Draw(t, "missing") == 0 {
-		c.Missing = true
+	if (c.Carrier == "map" || c.Carrier == "url") && rapid.IntRange(0, 5).Draw(t, "missing") == 0 && !c.callFn("required") {
+		c.Missing = true // (not next to a per-call function named required: what that means for an absent entry is undocumented)
 	}
 	finishScalar(t, c)
 	return c
